@@ -521,11 +521,20 @@ func c06Gen(g *Gen) {
 			}
 		}
 		g.c06E2E("names", "$a.$ab.$b", []string{"a", "ab", "b"}, c06AllTuples(3, []string{"", "a", "b", "ab"}), 1)
+		// two outputs with their own queue roots: the first is delivered live, the second only after the restart
+		g.c06E2E("two-outputs", "$k0-$k1", n2, [][]string{{"ab", "c"}, {"a", "bc"}, {"ab", "c"}, {"a,b", "c"}}, 2)
+		g.c06E2E("two-outputs", "$k0", n1, c06AllTuples(1, c06Alphabet), 2)
+		g.c06E2E("two-outputs", "$k0-$k1", n2, c06AllTuples(2, c06Alphabet), 2)
+		for i := 0; i < g.Pick(30, 1500); i++ {
+			n := r.Range(1, 3)
+			group := g.c06RandGroup(n, r.Range(2, 6), false)
+			g.c06E2E("two-outputs", c06Templates(n)[0], c06DefaultNames[:n], g.c06Shuffle(append(append([][]string{}, group...), group[:r.Intn(len(group))]...)), 2)
+		}
 		for i := 0; i < g.Pick(150, 5000); i++ {
 			n := r.Range(1, 3)
 			group := g.c06RandGroup(n, r.Range(2, 6), false)
 			recs := g.c06Shuffle(append(append([][]string{}, group...), group[:r.Intn(len(group))]...))
-			g.c06E2E("random", r.PickStr(c06Templates(n)), c06DefaultNames[:n], recs, r.Intn(2))
+			g.c06E2E("random", r.PickStr(c06Templates(n)), c06DefaultNames[:n], recs, r.Intn(3))
 		}
 	}
 	// ------------------------------------------------------------------ umask / directory mode
